@@ -29,6 +29,7 @@ RULE = (
 )
 RULE += (" " + 'Key-collision documents are drawn in addition: several items that serialise to one dict key (flag-alias spellings re|i / re|ignorecase without a pipeline, many-to-one field mappings with one, explicit |all items); reloaded queries may differ as text only if they are pairwise equivalent by truth table over the decoded leaves.')
 RULE += (" Every standard attribute a document sets must reappear in the dict; log sources carry further keys; items with an empty value list occur.")
+RULE += (" In filter cases the rules the filter was applied to are written out and loaded again one by one (dict and YAML) and must convert like they do inside the collection.")
 ASSUMPTIONS = [
     "queries are compared as strings of one backend (same code on both sides)",
     "only what the statement claims is asserted: dict form and queries, not object equality",
@@ -274,6 +275,33 @@ def check_case(case: dict) -> Outcome:
         return out
     if q1 != q2 and (kind != "rule" or not _same_meaning(q1, q2)):
         out.fail(sig(f"C06:{kind}:queries-changed"), f"original converts to {q1}, reloaded to_dict() {d1.get('detection', d1.get('correlation', d1.get('filter')))!r} to {q2}"[:900])
+    if kind == "filter" and not out.failures:
+        # the rules of the collection, as the filter left them, are loaded objects too: each one written out and loaded
+        # again on its own (dict and YAML) must convert to what it converts to inside the collection
+        from sigma.backends.test import TextQueryTestBackend
+        from sigma.collection import SigmaCollection
+        from sigma.rule import SigmaRule
+        coll = SigmaCollection.from_dicts(copy.deepcopy(ctx_docs + [doc]))
+        for r in coll.rules:
+            if not isinstance(r, SigmaRule):
+                continue
+            try:
+                rd = r.to_dict()
+                inside = _convert_rule(r)   # a backend without a pipeline of its own: the rule object is not changed
+                for via in ("dict", "yaml"):
+                    r2 = SigmaRule.from_dict(copy.deepcopy(rd)) if via == "dict" else SigmaRule.from_yaml(yaml.safe_dump(rd, sort_keys=False))
+                    rd2 = r2.to_dict()
+                    alone = _convert_rule(r2)
+                    if alone != inside and not _same_meaning(inside, alone):
+                        out.fail(sig("C06:filtered-rule:queries-changed"), f"rule {r.title} with filter {doc['filter']!r} converts to {inside}; its to_dict() {rd['detection']!r} reloaded ({via}) converts to {alone}"[:1000])
+                        return out
+                    if rd2 != rd:
+                        out.fail(sig("C06:filtered-rule:dict-not-stable"), f"rule {r.title}: to_dict() {rd['detection']!r} reloaded gives {rd2['detection']!r}"[:900])
+                        return out
+                out.label("filtered-rule-written-and-reloaded")
+            except (SigmaError, NotImplementedError) as e:
+                out.fail("C06:filtered-rule:error:" + type(e).__name__, f"rule {r.title} with filter {doc['filter']!r}: {e}"[:600])
+                return out
     return out
 
 
